@@ -43,3 +43,19 @@ Theorem C09_restore_installs_exactly_the_snapshot : forall st r s r',
   r_state r' = StateFollower.
 Proof. exact RestoreRefine.restore_installs_snapshot. Qed.
 Print Assumptions C09_restore_installs_exactly_the_snapshot.
+
+(* the snapshot a leader sends is exactly the one its log can offer: the pending unstable snapshot,
+   otherwise the storage's latest snapshot, which the application created from applied (hence
+   committed) state (Proofs/ProposalProofs.v); that it is a prefix of the committed log is then the
+   application's contract, which the harness' application model keeps and the monitors check *)
+From RaftV Require ProposalProofs.
+Theorem C09_snapshot_sent_is_the_logs : forall st r to pr r',
+  maybe_send_snapshot st r to pr = Ok (r', true) ->
+  exists m, r_msgs r' = r_msgs r ++ [m] /\ m_type m = MsgSnap /\ m_to m = to /\
+            m_snapshot m = Some (l_snapshot st (r_log r)) /\
+            l_snapshot st (r_log r) = match u_snapshot (l_unstable (r_log r)) with
+                                      | Some s => s
+                                      | None => ms_get_snapshot st
+                                      end.
+Proof. exact ProposalProofs.snapshot_sent_is_the_logs. Qed.
+Print Assumptions C09_snapshot_sent_is_the_logs.
